@@ -69,6 +69,13 @@ def handle : Handler := fun op args =>
     withArgs (do let tr ← pNat; let fn ← pFn; let a ← pRat; let b ← pRat; let eps ← pRat; let d ← pInt
                  let _ifn ← pFn; let _ia ← pRat; let _ib ← pRat; let _ie ← pRat; let _id ← pInt
                  pure (tr, fn, a, b, eps, d)) args fun (tr, fn, a, b, eps, d) => answer tr fn a b eps d
+  -- history: Find_Epsilon(g, lo, hi, precision) precedes the Integrate call; by `integrate_after_findEpsilon` the model of
+  -- the Integrate call is the model of the plain call: the Find_Epsilon part is parsed and ignored.
+  | "c03.hist" =>
+    withArgs (do let tr ← pNat; let fn ← pFn; let a ← pRat; let b ← pRat; let eps ← pRat; let d ← pInt
+                 let _g ← pFn; let _p ← pRat
+                 pure (tr, fn, a, b, eps, d)) args fun (tr, fn, a, b, eps, d) => answer tr fn a b eps d
+  | "c03.histf" => some "undef"
   -- transcendental / arbitrary integrands: decided by the oracle on the implementation only
   | "c03.fam" => some "undef"
   | "c03.nestedf" => some "undef"
